@@ -246,6 +246,7 @@ fn families(thorough: bool) -> Vec<Family> {
 }
 
 pub fn check_config(c: &Config, exact_prob: bool) -> (Option<Value>, u64, u64) {
+    let _h = vlib::report::horizon("C02", "termination", c.key(), json!({"config": c.to_json(), "exact_prob": exact_prob}), 1176 * c.pi().max(1));
     let model = model_run(c);
     let expected: u64 = model.iter().map(|b| b.len() as u64).sum();
     let cap = 1176 * c.pi().max(1) + 16;
